@@ -172,7 +172,9 @@ class ProcGen:
             if self.explicit and self.pending and r.random() < 0.5:
                 self.new(self.pending.pop())
             elif self.explicit and r.random() < 0.12:
-                free = [i for i in range(0, 12) if i not in self.live_ids() and i not in self.reserved]
+                # small ids (they compete with the automatic ones) and the edges of the 10-bit world field
+                free = [i for i in list(range(0, 12)) + [255, 256, 511, 512, 767, 1022, 1023]
+                        if i not in self.live_ids() and i not in self.reserved]
                 if free:
                     self.new(r.choice(free))
                 else:
@@ -422,17 +424,17 @@ def _run(ctx, rng, sess):
         for f in wc.corpus_files(["C17"]):
             files.append(("corpus:" + os.path.relpath(f, vlib.VERIF), open(f).read()))
         files += boundary_cases()
-        ex_files, nseq = exhaustive_allocator(6 if ctx.thorough else 4)
+        ex_files, nseq = exhaustive_allocator(7 if ctx.thorough else 5)
         ctx.cov(exhaustive_allocator_histories=nseq)
         for i, t in enumerate(ex_files):
             files.append(("exhaustive-allocator:%d" % i, t))
         # thousands of worlds one after the other, few alive at once
-        seq = [(1100, 8, False), (2100, 4, True), (1300, 2, True)]
+        seq = [(1100, 8, False), (2100, 4, True), (1300, 2, True), (10500, 8, True), (4200, 8, False)]
         if ctx.thorough:
-            seq += [(10500, 8, True), (4200, 8, False), (3000, 3, True)] + [(rng.randint(1025, 2600), rng.randint(1, 8), True) for _ in range(12)]
+            seq += [(30000, 8, True), (3000, 3, True)] + [(rng.randint(1025, 2600), rng.randint(1, 8), rng.random() < 0.5) for _ in range(40)]
         for (total, keep, ch) in seq:
             files.append(("sequential:%d/keep%d" % (total, keep), gen_sequential(rng, total, keep, ch)))
-        n = 4000 if ctx.thorough else 160
+        n = 40000 if ctx.thorough else 1500
         for i in range(n):
             ln = rng.randint(20, 120) * (2 if ctx.thorough else 1)
             files.append(("interleaved:%d" % i, gen_interleaved(rng, ln, malformed=rng.choice([0.0, 0.15, 0.4]),
@@ -497,7 +499,7 @@ def _run(ctx, rng, sess):
             worlds_built=st.get("worlds", 0), max_worlds_alive=st.get("max_live", 0), max_world_id_seen=st.get("max_id", 0),
             ops_executed=st.get("ops", 0), frame_checks=st.get("frame_checks", 0), foreign_handle_checks=st.get("foreign_checks", 0),
             own_handle_checks=st.get("own_checks", 0),
-            exhaustive_allocator_len=(6 if ctx.thorough else 4),
+            exhaustive_allocator_len=(7 if ctx.thorough else 5),
             oracle_failures=len(failures["oracle"]), aborts=len(failures["abort"]), tie_differences=len(failures["tie"]),
             trusted_base=["Lean 4.33 kernel and the axioms listed under axioms_used",
                           "harness/worlds_driver.cpp (+ the included world_driver.cpp) and its in-harness oracle; tools/props/c17.py",
